@@ -372,7 +372,12 @@ func handleZDIFFSTORE(params internal.HandlerFuncParams) ([]byte, error) {
 
 	// Extract base set
 	if !keyExists[keys.ReadKeys[0]] {
-		// If base set does not exist, return 0
+		// If base set does not exist, the difference is empty: store the empty result and return 0
+		if err = params.SetValues(params.Context, map[string]interface{}{
+			destination: NewSortedSet([]MemberParam{}),
+		}); err != nil {
+			return nil, err
+		}
 		return []byte(":0\r\n"), nil
 	}
 
@@ -536,6 +541,13 @@ func handleZINTERSTORE(params internal.HandlerFuncParams) ([]byte, error) {
 	values := params.GetValues(params.Context, keys)
 	for i := 0; i < len(keys); i++ {
 		if !keyExists[keys[i]] {
+			// If any of the keys is non-existent the intersection is empty:
+			// store the empty result and return 0
+			if err = params.SetValues(params.Context, map[string]interface{}{
+				destination: NewSortedSet([]MemberParam{}),
+			}); err != nil {
+				return nil, err
+			}
 			return []byte(":0\r\n"), nil
 		}
 		set, ok := values[keys[i]].(*SortedSet)
